@@ -1004,7 +1004,66 @@ func (x *Exec) builtin(st *State, fr *Frame, name string, args []Value, c *ssa.C
 	case "append":
 		return ret(x.appendSlice(st, fr, args[0].(*SliceV), args[1]))
 	case "copy":
-		fail("copy builtin not modelled")
+		dst, ok1 := args[0].(*SliceV)
+		src, ok2 := args[1].(*SliceV)
+		if !ok1 || !ok2 {
+			fail("copy: operands are not slices")
+		}
+		n := mkMin(dst.len, src.len)
+		if dst.cell == nil || src.cell == nil {
+			return ret(mkInt(0))
+		}
+		srcElem := func(i *Term) Value {
+			return x.load(st, x.elemPtrAt(st, src, i))
+		}
+		switch db := st.store[dst.cell].(type) {
+		case *Tuple:
+			off, okOff := concreteInt(dst.off)
+			l, okLen := concreteInt(dst.len)
+			if !okOff || !okLen {
+				fail("copy into a concrete array through a symbolic window is not modelled")
+			}
+			el := append([]Value{}, db.el...)
+			for i := 0; i < l; i++ {
+				nv, ok := iteValue(mkLt(mkInt(int64(i)), n), srcElem(mkInt(int64(i))), el[off+i])
+				if !ok {
+					fail("copy: elements not mergeable")
+				}
+				el[off+i] = nv
+			}
+			st.store[dst.cell] = &Tuple{typ: db.typ, el: el}
+			st.wlog = append(st.wlog, dst.cell.id)
+			if st.written != nil {
+				st.written[dst.cell] = true
+			}
+		case *SymArr:
+			if db.ro {
+				fail("copy into the backing array of a slice held by a symbolic object is not modelled")
+			}
+			var sa *SymArr
+			switch sb := st.store[src.cell].(type) {
+			case *SymArr:
+				sa = sb
+			case *Tuple:
+				x.symArrCtr++
+				sa = &SymArr{elem: src.elem, name: fmt.Sprintf("lit%d", x.symArrCtr)}
+				for i, e := range sb.el {
+					sa.writes = append(sa.writes, symWrite{idx: mkInt(int64(i)), val: e})
+				}
+			default:
+				fail("copy: unsupported source backing")
+			}
+			nd := &SymArr{elem: db.elem, name: db.name, pre: db.pre}
+			nd.writes = append(append([]symWrite{}, db.writes...), symWrite{idx: dst.off, src: sa, srcOff: src.off, n: n})
+			st.store[dst.cell] = nd
+			st.wlog = append(st.wlog, dst.cell.id)
+			if st.written != nil {
+				st.written[dst.cell] = true
+			}
+		default:
+			fail("copy: unsupported destination backing")
+		}
+		return ret(n)
 	case "close":
 		st.log = append(st.log, Event{kind: "close", args: args})
 		st.version++
@@ -1031,6 +1090,19 @@ func (x *Exec) builtin(st *State, fr *Frame, name string, args []Value, c *ssa.C
 	}
 	fail("unsupported builtin %s(%s)", name, valueString(args[0]))
 	return nil
+}
+
+// elemPtrAt: pointer to element i of a slice (concrete or symbolic backing).
+func (x *Exec) elemPtrAt(st *State, s *SliceV, i *Term) *Ptr {
+	if _, ok := st.store[s.cell].(*SymArr); ok {
+		return &Ptr{cell: s.cell, sym: mkAdd(s.off, i)}
+	}
+	off, ok1 := concreteInt(s.off)
+	k, ok2 := concreteInt(i)
+	if !ok1 || !ok2 {
+		fail("symbolic index into a concrete array (copy)")
+	}
+	return &Ptr{cell: s.cell, path: []int{off + k}}
 }
 
 func (x *Exec) appendSlice(st *State, fr *Frame, s *SliceV, more Value) Value {
